@@ -8,13 +8,13 @@ def special_run(name="special"):
                    workers=4, timeout=900)
 
 
-def report_known(chk, rep, pid):
+def report_known(chk, rep, pid, how="comparisons in the listed range exceed the strict tolerance but stay within what the cause explains"):
     """known findings: only those committed in KNOWN_FINDINGS for this property may be downgraded"""
     listed = {kv.get("key"): line for kv, line in known_findings().get(pid, [])}
     for key, cnt in rep.get("known", {}).items():
         if key in listed:
             desc = listed[key].split("--", 1)[-1].strip()[:300]
-            msg = "key=%s (%d comparisons in the listed range exceed the strict tolerance but stay within what the cause explains) %s" % (key, cnt, desc)
+            msg = "key=%s (%d %s) %s" % (key, cnt, how, desc)
             if msg not in chk.known:
                 chk.known.append(msg)
         else:
